@@ -18,8 +18,11 @@ import (
 // ---- C14: operation lookups ----
 
 var c14Media = []any{nil, []any{}, []any{"x"}, []any{"x", "y"}}
-var c14Security = []any{nil, []any{}, []any{J{}}, []any{J{"k": []any{}}}, []any{J{"k": []any{"s"}}, J{"j": []any{}}}, []any{J{"k": []any{"s"}, "j": []any{"t", "u"}}}}
-var c14SecDefs = []any{nil, J{"k": J{"type": "basic"}}, J{"k": J{"type": "basic"}, "j": J{"type": "apiKey", "name": "n", "in": "header"}}}
+var c14Security = []any{nil, []any{}, []any{J{}}, []any{J{"k": []any{}}}, []any{J{"k": []any{"s"}}, J{"j": []any{}}}, []any{J{"k": []any{"s"}, "j": []any{"t", "u"}}},
+	// a later alternative combines an already seen scheme with new ones; an alternative naming an undefined scheme
+	[]any{J{"k": []any{}}, J{"j": []any{}, "k": []any{"s"}, "m": []any{}}}, []any{J{"m": []any{}}, J{}, J{"undefined": []any{}}}}
+var c14SecDefs = []any{nil, J{"k": J{"type": "basic"}}, J{"k": J{"type": "basic"}, "j": J{"type": "apiKey", "name": "n", "in": "header"}},
+	J{"k": J{"type": "basic"}, "j": J{"type": "apiKey", "name": "n", "in": "header"}, "m": J{"type": "apiKey", "name": "m", "in": "query"}}}
 
 func c14Op(x *mcx.Exec, label string, forceFactors bool) J {
 	op := J{"responses": J{"200": J{"description": "ok"}}}
